@@ -2,6 +2,7 @@ package sim
 
 import (
 	"fmt"
+	"math"
 	"sort"
 	"time"
 
@@ -27,6 +28,7 @@ type Gen struct {
 	TimeoutDeltas   []int64
 	SchedRouteOneIn int   // a created schedule's promise tags route with probability 1/n (0 = never)
 	ClaimTtls       []int // leases offered to ClaimTask (nil = default pool)
+	HugeTtlOneIn    int   // a lease asked for (lock acquire, claim, create-with-task) does not fit into 64 bits when added to the clock, or only just does, with probability 1/n (0 = never)
 	RouteOneIn      int   // a created promise carries a routing tag with probability 1/RouteOneIn (0 = never)
 	RouteTags       []string
 	PastTimeouts    bool // allow create with timeout <= now (F13)
@@ -37,7 +39,7 @@ type Gen struct {
 
 func DefaultGen(d D) *Gen {
 	return &Gen{D: d,
-		Pids: []string{"p1", "p2", "r"}, Keys: []string{"", "k1", "k2", "<empty>"}, Subs: []string{"s1", "s2"}, Workers: []string{"w1", "w2"},
+		Pids: []string{"p1", "p2", "r"}, Keys: []string{"", "k1", "k2", "<empty>", "K1"}, Subs: []string{"s1", "s2"}, Workers: []string{"w1", "w2"},
 		Res: []string{"res1", "res2"}, Execs: []string{"e1", "e2", "e3"}, Scheds: []string{"sch1", "sch2"},
 		Crons:         []string{"* * * * * *", "*/2 * * * * *", "*/5 * * * * *", "@every 1s", "@every 3s", "* * * * *"},
 		TimeoutDeltas: []int64{1, 500, 1000, 2000, 3000, 5000, 60000},
@@ -47,7 +49,26 @@ func DefaultGen(d D) *Gen {
 	}
 }
 
+// hugeTtl: the largest int64 (clock + ttl never fits) or a ttl that fits at the start of the timeline and no longer a
+// few steps later (the renewal computed by a heartbeat, or a re-acquire, does not fit)
+func (g *Gen) hugeTtl() (int64, bool) {
+	if g.HugeTtlOneIn == 0 || !g.D.OneIn(g.HugeTtlOneIn, "hugettl") {
+		return 0, false
+	}
+	return []int64{math.MaxInt64, math.MaxInt64 - Base - 1500, math.MaxInt64 - Base - 2500}[g.D.Uni(3, "hugettlv")], true
+}
+
+func (g *Gen) taskTtl() int {
+	if h, ok := g.hugeTtl(); ok {
+		return int(h)
+	}
+	return g.D.Int(0, 3, "ttl") * 1000
+}
+
 func (g *Gen) claimTtl() int {
+	if h, ok := g.hugeTtl(); ok {
+		return int(h)
+	}
 	ttls := g.ClaimTtls
 	if len(ttls) == 0 {
 		ttls = []int{0, 1000, 2000, 3000, 3000, 3600_000}
@@ -141,7 +162,7 @@ func (g *Gen) Req(now int64) *t_api.Request {
 			cp.Tags["resonate:invoke"] = g.pick(g.RouteTags, "routetag")
 		}
 		return &t_api.Request{Kind: t_api.CreatePromiseAndTask, CreatePromiseAndTask: &t_api.CreatePromiseAndTaskRequest{Promise: cp,
-			Task: &t_api.CreateTaskRequest{PromiseId: cp.Id, ProcessId: g.pick(g.Workers, "w"), Ttl: g.D.Int(0, 3, "ttl") * 1000, Timeout: cp.Timeout}}}
+			Task: &t_api.CreateTaskRequest{PromiseId: cp.Id, ProcessId: g.pick(g.Workers, "w"), Ttl: g.taskTtl(), Timeout: cp.Timeout}}}
 	case "CompletePromise":
 		st := []promise.State{promise.Resolved, promise.Rejected, promise.Canceled}[g.D.Int(0, 2, "state")]
 		return &t_api.Request{Kind: t_api.CompletePromise, CompletePromise: &t_api.CompletePromiseRequest{Id: g.pick(g.Pids, "pid"), IdempotencyKey: g.key("ikey"), Strict: g.D.Bool("strict"), State: st, Value: g.value("value")}}
@@ -171,7 +192,7 @@ func (g *Gen) Req(now int64) *t_api.Request {
 		return &t_api.Request{Kind: t_api.CreateSubscription, CreateSubscription: &t_api.CreateSubscriptionRequest{Id: g.pick(g.Subs, "sub"), PromiseId: g.pick(g.Pids, "pid"), Timeout: now + g.regTimeout(), Recv: []byte(`"poll://g/w"`)}}
 	case "AcquireLock":
 		ex := g.pick(g.Execs, "ex")
-		return &t_api.Request{Kind: t_api.AcquireLock, AcquireLock: &t_api.AcquireLockRequest{ResourceId: g.pick(g.Res, "res"), ExecutionId: ex, ProcessId: g.pick(g.Workers, "proc"), Ttl: int64(g.D.Int(0, 3, "ttl")) * 1000}}
+		return &t_api.Request{Kind: t_api.AcquireLock, AcquireLock: &t_api.AcquireLockRequest{ResourceId: g.pick(g.Res, "res"), ExecutionId: ex, ProcessId: g.pick(g.Workers, "proc"), Ttl: int64(g.taskTtl())}}
 	case "ReleaseLock":
 		return &t_api.Request{Kind: t_api.ReleaseLock, ReleaseLock: &t_api.ReleaseLockRequest{ResourceId: g.pick(g.Res, "res"), ExecutionId: g.pick(g.Execs, "ex")}}
 	case "HeartbeatLocks":
